@@ -64,7 +64,7 @@ def run_impl(spec):
         started = False
         for ev in spec.events:
             if ev[0] == "connectfailed":
-                v.connect_failed()
+                v.connect_failed(ev[1] if len(ev) > 1 else "ConnectionRefusedError")
                 res["events"].append(("connectfailed", []))
                 st = v.status()
                 res["events"][-1] = res["events"][-1] + ({"status": st[0], "stopped": st[1], "pending_stop": v.pending_stop(), "now": ticks(v.reactor.seconds())},)
@@ -256,6 +256,30 @@ def drive(r, spec, respond="random", faults=None, max_steps=80):
             if part:
                 spec.events.append(("recv", part))
                 note("recv", v.feed(part))
+            while v.reactor.getDelayedCalls() and v.reactor.stopped_at is None:
+                nxt = min(v.reactor.getDelayedCalls(), key=lambda c: c.getTime())
+                name = getattr(nxt.func, "__name__", "")
+                t, tk = v.fire()
+                spec.events.append(("fire",))
+                note("timeout" if name == "error" else ("stop" if name == "stop" else "timer"), tk, t)
+            res["zlog"] = v.zlog
+            res["screen"] = None
+            res["final_status"] = v.status()
+            res["finished"] = False
+            res["stalled"] = False
+            return res
+        if getattr(spec, "lose_in_handshake", None) is not None:
+            # the server accepts the connection, sends a prefix of its handshake (possibly nothing, possibly half a version line)
+            # and then closes or resets the connection
+            clean = bool(spec.lose_in_handshake)
+            cut = r.choice([0, 0, 3, 11, 12, 13, 14, 18, 20, len(hs) - 2])
+            part = hs[:cut]
+            if part:
+                spec.events.append(("recv", part))
+                note("recv", v.feed(part))
+            if not v.proto.transport.closed or clean:
+                spec.events.append(("lose", clean))
+                note("lose-clean" if clean else "lose-error", v.lose(clean))
             while v.reactor.getDelayedCalls() and v.reactor.stopped_at is None:
                 nxt = min(v.reactor.getDelayedCalls(), key=lambda c: c.getTime())
                 name = getattr(nxt.func, "__name__", "")
